@@ -56,7 +56,7 @@ func (c12) Gen(seed uint64, run int, tier, variant string) interface{} {
 	// races non-deterministically)
 	p.Sim.PoolBuggy = true
 	p.Pristine = r.Chance(34)
-	p.Solo = SimCfg{NumCPU: p.Sim.NumCPU, Policy: "fifo", Seed: r.U64(), PoolBuggy: true}
+	p.Solo = SimCfg{NumCPU: p.Sim.NumCPU, Policy: "fifo", Seed: r.U64(), PoolBuggy: true, PoolMode: p.Sim.PoolMode}
 	return &p
 }
 
